@@ -97,44 +97,50 @@ var c16Defects = []string{"notjwt", "noid", "aud", "noaud", "noexp", "toolong", 
 
 // c16Reasons: the error text a defective registration is expected to be refused with. Evidence only (class counters).
 var c16Reasons = map[string]string{
-	"defect-notjwt":             "only JWT presentations are supported",
-	"defect-noid":               "presentation does not have an ID",
-	"defect-aud":                "aud claim is missing or invalid",
-	"defect-noaud":              "aud claim is missing or invalid",
-	"defect-noexp":              "presentation does not have an expiration",
-	"defect-toolong":            "presentation is valid for too long",
-	"defect-expired":            "presentation verification failed",
-	"defect-outlive":            "presentation is valid longer than the credential(s) it contains",
-	"defect-method":             "DID methods not supported",
-	"defect-surplus":            "presentation does not fulfill Presentation ServiceDefinition",
-	"defect-surplusdup":         "presentation does not fulfill Presentation ServiceDefinition",
-	"defect-missing":            "doesn't match required presentation definition",
-	"defect-missingreg":         "doesn't match required presentation definition",
-	"defect-wrongissuer":        "doesn't match required presentation definition",
-	"defect-forged":             "presentation verification failed",
-	"defect-otherkey":           "presentation verification failed",
-	"defect-tampered":           "presentation verification failed",
-	"defect-foreigncred":        "presentation verification failed",
-	"defect-impersonate":        "presentation verification failed",
-	"defect-credforged":         "presentation verification failed",
-	"defect-duplicate":          "presentation already exists",
-	"retract-defect-notjwt":     "only JWT presentations are supported",
-	"retract-defect-noid":       "presentation does not have an ID",
-	"retract-defect-aud":        "aud claim is missing or invalid",
-	"retract-defect-noaud":      "aud claim is missing or invalid",
-	"retract-defect-noexp":      "presentation does not have an expiration",
-	"retract-defect-toolong":    "presentation is valid for too long",
-	"retract-defect-toolong10y": "presentation is valid for too long",
-	"retract-defect-expired":    "presentation verification failed",
-	"retract-defect-method":     "DID methods not supported",
-	"retract-defect-forged":     "presentation verification failed",
-	"retract-defect-tampered":   "presentation verification failed",
-	"retract-defect-otherkey":   "presentation verification failed",
-	"retract-nothing":           "retraction presentation refers to a non-existing presentation",
-	"retract-unknown":           "retraction presentation refers to a non-existing presentation",
-	"retract-someone-elses":     "retraction presentation refers to a non-existing presentation",
-	"retract-with-credentials":  "retraction presentation must not contain credentials",
-	"retract-without-jti":       "invalid/missing 'retract_jti' claim",
+	"defect-notjwt":  "only JWT presentations are supported",
+	"defect-noid":    "presentation does not have an ID",
+	"defect-aud":     "aud claim is missing or invalid",
+	"defect-noaud":   "aud claim is missing or invalid",
+	"defect-noexp":   "presentation does not have an expiration",
+	"defect-toolong": "presentation is valid for too long",
+	"defect-expired": "presentation verification failed",
+	"defect-outlive": "presentation is valid longer than the credential(s) it contains",
+	"defect-outlive-membership-credential:rm":   "presentation is valid longer than the credential(s) it contains",
+	"defect-outlive-membership-credential:mr":   "presentation is valid longer than the credential(s) it contains",
+	"defect-outlive-registration-credential:rm": "presentation is valid longer than the credential(s) it contains",
+	"defect-outlive-registration-credential:mr": "presentation is valid longer than the credential(s) it contains",
+	"defect-outlive-both-credential:rm":         "presentation is valid longer than the credential(s) it contains",
+	"defect-outlive-both-credential:mr":         "presentation is valid longer than the credential(s) it contains",
+	"defect-method":                             "DID methods not supported",
+	"defect-surplus":                            "presentation does not fulfill Presentation ServiceDefinition",
+	"defect-surplusdup":                         "presentation does not fulfill Presentation ServiceDefinition",
+	"defect-missing":                            "doesn't match required presentation definition",
+	"defect-missingreg":                         "doesn't match required presentation definition",
+	"defect-wrongissuer":                        "doesn't match required presentation definition",
+	"defect-forged":                             "presentation verification failed",
+	"defect-otherkey":                           "presentation verification failed",
+	"defect-tampered":                           "presentation verification failed",
+	"defect-foreigncred":                        "presentation verification failed",
+	"defect-impersonate":                        "presentation verification failed",
+	"defect-credforged":                         "presentation verification failed",
+	"defect-duplicate":                          "presentation already exists",
+	"retract-defect-notjwt":                     "only JWT presentations are supported",
+	"retract-defect-noid":                       "presentation does not have an ID",
+	"retract-defect-aud":                        "aud claim is missing or invalid",
+	"retract-defect-noaud":                      "aud claim is missing or invalid",
+	"retract-defect-noexp":                      "presentation does not have an expiration",
+	"retract-defect-toolong":                    "presentation is valid for too long",
+	"retract-defect-toolong10y":                 "presentation is valid for too long",
+	"retract-defect-expired":                    "presentation verification failed",
+	"retract-defect-method":                     "DID methods not supported",
+	"retract-defect-forged":                     "presentation verification failed",
+	"retract-defect-tampered":                   "presentation verification failed",
+	"retract-defect-otherkey":                   "presentation verification failed",
+	"retract-nothing":                           "retraction presentation refers to a non-existing presentation",
+	"retract-unknown":                           "retraction presentation refers to a non-existing presentation",
+	"retract-someone-elses":                     "retraction presentation refers to a non-existing presentation",
+	"retract-with-credentials":                  "retraction presentation must not contain credentials",
+	"retract-without-jti":                       "invalid/missing 'retract_jti' claim",
 }
 
 // c16RetractDefects: the generic presentation defects, applied to an otherwise valid retraction of the signer's own live entry.
